@@ -49,6 +49,23 @@ def cex_word(rec, aux_witness):
     return None
 
 
+CASE_ALTS = {"i": ["I", "\u0130", "\u0131"], "s": ["S", "\u017f"], "k": ["K", "\u212a"]}
+
+
+def case_variants(s):
+    """spellings of a filter string that a case-insensitive pattern still matches: every single character replaced
+    by each of its case variants (for i, s, k also the non-ASCII ones re.IGNORECASE accepts: U+0130, U+0131, U+017F,
+    U+212A), and all characters replaced at once (one variant class at a time)"""
+    low = s.lower()
+    out = {s, low, low.upper()}
+    for pos, ch in enumerate(low):
+        for alt in CASE_ALTS.get(ch, [ch.upper()]):
+            out.add(low[:pos] + alt + low[pos + 1:])
+    for pick in range(3):
+        out.add("".join((CASE_ALTS[ch][min(pick, len(CASE_ALTS[ch]) - 1)] if ch in CASE_ALTS else ch) for ch in low))
+    return sorted(out)
+
+
 def main(pid):
     thorough = vlib.tier() == "thorough"
     ev, vd = Evidence(pid), Verdict(pid)
@@ -90,6 +107,13 @@ def main(pid):
     if len(wit) < checked:
         raise MachineryError(f"only {len(wit)} witness words for {checked} checked extractors")
     texts = [w for _, w in wit] + [f"See {w}, at 5 (1999)." for _, w in wit[:: (1 if thorough else 6)]]
+    # case-insensitive extractors: every filter string in every case-variant spelling, bare, in prose, and followed by
+    # what the pattern needs after it (the clause "case-insensitively for case-insensitive extractors")
+    ci = vlib.impl_run("drv_aho", "ci_strings", {})
+    ci_texts = [t for _, strings in ci for st in strings for v in case_variants(st)
+                for t in (v, f"x {v} y", f"Foo, {v}, at 5.", f"({v} 1 U.S. 1)")]
+    texts += ci_texts
+    ev.cov["case_variant_texts"] = len(set(ci_texts))
     docs = list(gendocs.pairs())
     rnd.shuffle(docs)
     texts += docs[: (6000 if thorough else 1200)]
